@@ -1,17 +1,21 @@
 ----------------------------- MODULE MC_TokenFS -----------------------------
 EXTENDS XpmTokenFS
 CONSTANT Variant
-W2 == [owner |-> [j \in Jobs |-> IF j = "a" THEN "p1" ELSE "p2"], req |-> [j \in Jobs |-> 1], total |-> 1, totals |-> {}, resub |-> {}]
-W3 == [owner |-> [j \in Jobs |-> IF j = "c" THEN "p2" ELSE "p1"], req |-> [j \in Jobs |-> IF j = "c" THEN 2 ELSE 1], total |-> 2, totals |-> {}, resub |-> {}]
+W2 == [owner |-> [j \in Jobs |-> IF j = "a" THEN "p1" ELSE "p2"], req |-> [j \in Jobs |-> 1], total |-> 1, totals |-> {}, resub |-> {}, late |-> {}]
+W3 == [owner |-> [j \in Jobs |-> IF j = "c" THEN "p2" ELSE "p1"], req |-> [j \in Jobs |-> IF j = "c" THEN 2 ELSE 1], total |-> 2, totals |-> {}, resub |-> {}, late |-> {}]
 (* the token is declared again with another total while jobs wait for it / hold it *)
-W4 == [owner |-> [j \in Jobs |-> IF j = "a" THEN "p1" ELSE "p2"], req |-> [j \in Jobs |-> IF j = "a" THEN 2 ELSE 1], total |-> 1, totals |-> {3}, resub |-> {}]
+W4 == [owner |-> [j \in Jobs |-> IF j = "a" THEN "p1" ELSE "p2"], req |-> [j \in Jobs |-> IF j = "a" THEN 2 ELSE 1], total |-> 1, totals |-> {3}, resub |-> {}, late |-> {}]
 (* a job that comes back asking for more, while the reclaim thread of another scheduler still watches its first run *)
-W5 == [owner |-> [j \in Jobs |-> IF j = "a" THEN "p1" ELSE "p2"], req |-> [j \in Jobs |-> IF j = "a" THEN 1 ELSE 2], total |-> 4, totals |-> {}, resub |-> {3}]
-MCInit == InitWith(IF Variant = "resubmit" THEN W5 ELSE IF Variant = "two" THEN W2 ELSE IF Variant = "retotal" THEN W4 ELSE W3)
+W5 == [owner |-> [j \in Jobs |-> IF j = "a" THEN "p1" ELSE "p2"], req |-> [j \in Jobs |-> IF j = "a" THEN 1 ELSE 2], total |-> 4, totals |-> {}, resub |-> {3}, late |-> {}]
+(* both jobs belong to the same scheduler; the other one only watches (its reclaim thread can remove a token file) *)
+W6 == [owner |-> [j \in Jobs |-> "p1"], req |-> [j \in Jobs |-> 1], total |-> 1, totals |-> {}, resub |-> {}, late |-> {}]
+(* p2 starts when the job of p1 has been holding the token for a while, possibly after it ended *)
+W7 == [owner |-> [j \in Jobs |-> IF j = "a" THEN "p1" ELSE "p2"], req |-> [j \in Jobs |-> 1], total |-> 1, totals |-> {}, resub |-> {}, late |-> {"p2"}]
+MCInit == InitWith(IF Variant = "latestart" THEN W7 ELSE IF Variant = "raced" THEN W6 ELSE IF Variant = "resubmit" THEN W5 ELSE IF Variant = "two" THEN W2 ELSE IF Variant = "retotal" THEN W4 ELSE W3)
 MCSpec == MCInit /\ [][Next]_vars
 (* one scheduler death at most, to keep the model small *)
-OneDeath == Cardinality({p \in Procs : ~alive[p]}) <= 1
-NoDeath == \A p \in Procs : alive[p]
+OneDeath == Cardinality({p \in Procs : ~alive[p] /\ info.started[p] # "no"}) <= 1
+NoDeath == \A p \in Procs : alive[p] \/ info.started[p] = "no"
 (* bounded exploration of the three-job workload (the lost notification of the other order shows at depth 23) *)
 (* quick variant of the re-declaration workload: only the job that waits for the larger total is submitted *)
 RetotalQuick == NoDeath /\ jobst["b"] = "idle"
